@@ -12,7 +12,7 @@ from ..rules.common import FlagSem, run_flags
 
 LEVEL = 'other'
 TECHNIQUE = ('static: abstract evaluation of the builtin filter over the closed builtin namespace, who-may-eval '
-             'call-graph rule, must-pass-through check before eval, interpretation of the AST gate over a situation table')
+             'call-graph rule, must-pass-through check before eval, interpretation of the AST gate over a situation table, no-mutation rule on the memoised allowed-names tables')
 LEVEL_TEXT = ('Decides from the source: (R1) the set of builtins the sandbox admits, computed by evaluating the '
               'repository filter predicate over every builtin of the interpreter, never meets the effect table; '
               '(R2) the only dynamic-evaluation site reachable from constant/alert evaluation is the guarded eval, '
